@@ -131,3 +131,19 @@ CHECKS["C11"] = {
     "note": TRUST + " d=2 quick, 3 thorough. Executor jobs complete atomically when delivered; a job whose awaiting task was cancelled still runs (its result is dropped), as a "
             "started thread would. Masks come from a fixed-seed Random.",
 }
+
+CHECKS["C20"] = {
+    "engine": "SCHED",
+    "design_ref": "§3 C20, §2.1-2.3",
+    "technique": "exhaustive fault enumeration over cleanup-context / signal-handler failures through both entry points + deviation-bounded schedule exploration of shutdown on a virtual loop",
+    "text": "ctx: every assignment of {ok, fails in setup, fails in teardown} x {async-generator, context-manager class} to n<=3 cleanup contexts, of ok/raise to "
+            "on_startup/on_shutdown/on_cleanup handlers and of 1-2 contexts to a sub-application registered before or after them (about 1700 configurations) is run "
+            "through AppRunner.setup()/cleanup() and through web._run_app on the virtual loop; an event-log model requires each context's cleanup code exactly once "
+            "iff its startup completed, per application in reverse order.  shutdown: 14 scenarios of 2-3 in-memory connections in scripted request phases (idle "
+            "keep-alive, partial head, pending body, handler finishing / never finishing / shielding, streaming response, pipelined request, slow on_shutdown hook, "
+            "peer reset) where runner.cleanup() may start at any loop pass; every schedule with <= d deviations; the shutdown timeline (nothing new accepted, idle "
+            "connections closed at once, released handlers finish uncancelled, nothing survives 2x timeout, all transports closed and cleanup() returned in time) is "
+            "judged in virtual time.",
+    "note": TRUST + " d=2 quick, 3 thorough. loop.create_server is a socket-less fake; _run_app is stopped by cancelling its task; reverse order is judged per application; "
+            "'at once' = within 6 loop passes; the clock never advances while callbacks are queued in the shutdown section.",
+}
